@@ -143,7 +143,12 @@ def with_riders(entries, k):
     return {1: [nack] + list(entries), 2: [ack] + list(entries), 3: [nack] + list(entries) + [ack]}[k % 4]
 
 
-def sd_bytes(entries, session, reboot=True, unicast=True, extra_flags=0, share=False):
+# Client-IDs of the SOME/IP header that carries an SD message: mostly 0, but a peer with a configured client-id prefix puts it
+# there as well - the field is no part of what makes a message an SD message
+CLIENT_IDS = (0, 0, 0, 0x1200, 0, 0x0001, 0, 0xFFFF)
+
+
+def sd_bytes(entries, session, reboot=True, unicast=True, extra_flags=0, share=False, client=None, pad=b""):
     """lay out entries with their options (no sharing unless asked for: then a run that was laid out before is referenced
     again, which messages with many entries need - option indexes are one byte wide) and encode a full SD datagram"""
     options = []
@@ -166,7 +171,13 @@ def sd_bytes(entries, session, reboot=True, unicast=True, extra_flags=0, share=F
         ents.append(dict(type=e["type"], i1=i1, i2=i2, n1=len(e["o1"]), n2=len(e["o2"]), sid=e["sid"],
                          iid=e["iid"], maj=e["maj"], ttl=e["ttl"], val=e["val"]))
     flags = (0x80 if reboot else 0) | (0x40 if unicast else 0) | extra_flags
-    return refwire.sd_datagram(flags, ents, options, session)
+    cid = CLIENT_IDS[session % len(CLIENT_IDS)] if client is None else client
+    if pad:
+        # bytes behind the option array, inside the SOME/IP payload (a sender that pads its SD messages): the SD message in front
+        # of them decodes as it is
+        return refwire.encode_someip(dict(sid=refwire.SD_SERVICE, mid=refwire.SD_METHOD, cid=cid, sess=session, pv=1, iv=1, mt=2, rc=0,
+                                          payload=refwire.encode_sd(flags, ents, options) + bytes(pad)))
+    return refwire.sd_datagram(flags, ents, options, session, cid=cid)
 
 
 def decode_sent(transport_sent):
